@@ -29,15 +29,91 @@ pub fn count() -> u64 {
     COUNT.with(std::cell::Cell::get)
 }
 
-/// Run the failing calls before every `every`-th case (k = case index).
+/// Run the failing calls before every `every`-th case (k = case index), and complete, successful
+/// life-cycles on foreign objects before another `every`-th.
 pub fn maybe(k: usize, every: usize) -> bool {
     if every > 0 && k % every == every / 2 {
         failing_calls();
+        true
+    } else if every > 0 && k % every == 0 {
+        foreign_calls();
         true
     } else {
         mark_clean();
         false
     }
+}
+
+thread_local! {
+    /// replays: which calls on unrelated objects come right before the last step of the history
+    /// (0 none, 1 the failing ones, 2 the successful ones)
+    static BEFORE_LAST: std::cell::Cell<u8> = const { std::cell::Cell::new(0) };
+}
+
+pub fn set_before_last(k: u8) {
+    BEFORE_LAST.with(|b| b.set(k));
+}
+
+/// called by the replay right before the last step (or the probes) of a history
+pub fn before_last_step() {
+    match BEFORE_LAST.with(std::cell::Cell::get) {
+        1 => failing_calls(),
+        2 => foreign_calls(),
+        _ => {}
+    }
+}
+
+/// Complete, successful life-cycles on foreign objects: nothing a graph or value answers may depend
+/// on them either (a hint, memo or cache shared between objects through the thread or the process).
+pub fn foreign_calls() {
+    DIRTY.with(|d| d.set(true));
+    COUNT.with(|c| c.set(c.get() + 1));
+    let _ = guarded(|| {
+        // two groups formed and collected, the one in the first slot last
+        let mut f: Sodg<3> = Sodg::empty(16);
+        for v in 0..6 {
+            f.add(v);
+        }
+        f.bind(0, 1, lab(0));
+        f.bind(2, 3, lab(0));
+        f.put(1, &dat(0));
+        f.put(3, &dat(1));
+        let _ = f.data(3);
+        let _ = f.data(1);
+        // ids handed out, a vertex with heap data read twice, texts of everything
+        let a = f.next_id();
+        f.add(a);
+        f.put(4, &dat(6));
+        let _ = (f.data(4), f.data(4), f.kid(4, lab(0)), f.kids(4).count());
+        f.bind(4, 5, Label::from_str("quantity").unwrap());
+        f.bind(5, 4, lab(8));
+        let _ = (f.to_xml().map(|t| t.len()), f.to_dot().len(), f.inspect(4).map(|t| t.len()), f.v_print(4).map(|t| t.len()), format!("{f:?}").len());
+        let s = f.slice(4).map(|s| s.len());
+        let _ = s;
+        let file = thread_file("foreign");
+        if f.save(&file).is_ok() {
+            let _ = Sodg::<3>::load(&file).map(|g| g.len());
+        }
+        let mut t: Sodg<3> = Sodg::empty(8);
+        t.add(0);
+        let _ = t.merge(&f.slice(4).unwrap(), 0, 4);
+        let _ = sodg::Script::from_str("ADD(1); ADD($ν1); BIND(1, $ν1, quantity); PUT($ν1, 00-01-02-03-04-05-06-07-08-09);").deploy_to(&mut t);
+        let c = t.clone();
+        let _ = c.len();
+    });
+    let _ = guarded(|| {
+        // values: texts of 8 characters and of heap data, printed, parsed, edited, dropped
+        let _ = (Label::from_str("quantity"), Label::from_str("α1234567"), Label::from_str("x"), Label::from_str("ρ"));
+        let mut h = Hex::from_slice(&[0x31; 12]);
+        let _ = h.print();
+        h[0] = 0x32;
+        let _ = h.print();
+        let r = h.concat(&Hex::from_slice(&[0x41; 3]));
+        let _ = (r.print(), r.len(), r.tail(2).len());
+        drop(r);
+        let _ = Hex::from_str("31-32-33-34-35-36-37-38-39-3A-3B-3C");
+        drop(h);
+    });
 }
 
 pub fn failing_calls() {
@@ -74,6 +150,24 @@ fn failing_calls_n<const N: usize>() {
         b.bind(0, 7, lab(0));
         let _ = b.merge(&a, 0, 10);
         let _ = b.merge(&a, 7, 13);
+    });
+    // merge: stopped half-way by a limit panic (the left vertex is full); right ids 0,1,2, left ids 200+
+    let _ = guarded(|| {
+        let mut l: Sodg<N> = Sodg::empty(210);
+        for v in 200..204 {
+            l.add(v);
+        }
+        for i in 0..N {
+            l.bind(200, 201 + i % 3, Label::Alpha(50 + i));
+        }
+        let mut r: Sodg<N> = Sodg::empty(4);
+        for v in 0..3 {
+            r.add(v);
+        }
+        r.bind(0, 1, lab(0));
+        r.bind(1, 2, lab(1));
+        r.put(2, &dat(1));
+        let _ = l.merge(&r, 200, 0);
     });
     // slice / inspect / v_print / kids / data on an id beyond the capacity or absent
     let small = || {
